@@ -44,7 +44,7 @@ INSPECT_KIND = {
 }
 CONTEXTS = ["module", "async", "method", "staticmethod", "classmethod", "nested", "inner-function-of-init"]
 ANN = ["none", "all", "alternating", "string"]
-DEFAULTS = ["0", "None", "x", "(1, 2)", "lambda q=1, /, *r: q"]
+DEFAULTS = ["0", "None", "x", "(1, 2)", "lambda q=1, /, *r: q", '"utf-8"', '"int"', 'lambda m="r", *, e="a-b": m']  # (string defaults are values, never annotations)
 RETURNS = [None, "int", '"R"', "list[int]"]
 _MAXC = {"quick": 2, "thorough": 3}
 
@@ -368,6 +368,12 @@ def _run_L(griffe, acc, case):
     sig = inspect.signature(lam)
     node = ast.parse(text, mode="eval").body
     _judge_params(acc, case, list(expr.parameters), sig, _argnodes(node.args), "lambda-" + where)
+    # the stored lambda, rendered, is the lambda that was written (markers `/`, `*`, `*args`, `**kw` included)
+    try:
+        if _expr_dump(str(expr)) != _norm(node):
+            acc.violation(f"lambda/render/{where}", f"lambda renders as {str(expr)!r}, written {text!r}", case)
+    except SyntaxError:
+        acc.violation(f"lambda/render-syntax/{where}", f"lambda renders as {str(expr)!r}, which does not parse (written {text!r})", case)
     acc.case({"src": src}, outcome=f"lambda-{where}", nontrivial=len(params) >= 2)
     acc.observe([p.name + p.kind.value + str(p.default) for p in expr.parameters])
 
